@@ -25,7 +25,7 @@ RULE = ("grammar-aware fault enumeration (full product of per-field alphabets, n
         "inner packet with bad padding, misaligned, filler); plus raw filler of lengths 1..40. Each crafted reply is sent "
         "for every request of the phase and driven through LAN.send, LAN.authenticate, Device._send_command and "
         "AirConditioner.refresh; the same alphabets are also injected UNSOLICITED between two exchanges (idle phase), after the "
-        "handshake, as bursts of 300 / 3000 minimal packets of each type, and as the answer to the IMPLICIT re-handshake of an operation that follows a lost connection or an expired authentication. Outcome must be frames / ProtocolError family / TimeoutError; device-level calls never raise. "
+        "handshake, as bursts of 300 / 3000 minimal packets of each type, as 64 kB .. 200 kB of marker-free garbage, as the same failure 15 times in a row on one device object, and as the answer to the IMPLICIT re-handshake of an operation that follows a lost connection or an expired authentication. Outcome must be frames / ProtocolError family / TimeoutError; device-level calls never raise. "
         "A case is (protocol, phase, field values, driver); all non-trivial")
 ASSUMPTIONS = ["the crafted reply is repeated for every retransmission", "frames carried by 'valid' bodies are well-formed state reports"]
 IP, PORT = "10.0.0.3", 6444
@@ -61,6 +61,8 @@ def shards(tier):
     out += [("v3re", 0, t) for t in range(16)]
     out += [("v2idle", m, 0) for m in range(len(V2_MARKERS))]
     out += [("flood", t, 0) for t in range(0, 16, 4)]
+    out += [("bulk", v, 0) for v in (2, 3)]
+    out += [("streak", v, 0) for v in (2, 3)]
     return out
 
 
@@ -289,6 +291,46 @@ def execute(version: int, phase: str, crafter, driver: str):
         w.close()
 
 
+def execute_streak(version: int, what: str, n: int):
+    w = World()
+    token, key = filler("c09/tok", 64), filler("c09/key", 32)
+    mode = {"bad": True}
+
+    def script(req):
+        if mode["bad"] and req.kind == "data":
+            if what == "garbage":
+                req.send(filler("c09/streak", 50))
+            elif what == "error":
+                req.send(rc.v3_build_plain(rc.T_ERROR, 0, b""))
+            elif what == "close":
+                req.close()
+            return
+        for p in req.responses:
+            req.send(p)
+
+    dev = SimDevice(version=version, token=token, key=key, device_id=7, script=script)
+    w.net.listen(IP, PORT, dev)
+    ac = AC(ip=IP, port=PORT, device_id=7)
+
+    async def drive():
+        if version == 3:
+            await ac.authenticate(token, key)
+        flags = []
+        for _ in range(n):
+            await ac.refresh()
+            flags.append(ac.online)
+        mode["bad"] = False
+        await ac.refresh()
+        flags.append(ac.online)
+        return flags
+
+    try:
+        out = w.run(drive())
+        return out, [], w.loop_errors()
+    finally:
+        w.close()
+
+
 ALLOWED = {"ok", "ProtocolError", "AuthenticationError", "TimeoutError"}
 
 
@@ -385,6 +427,46 @@ def run_shard(shard, tier) -> Stats:
                             res = execute(3, phase, crafter, driver)
                             oc = judge(st, case, driver, res[0], res[2], f"v3 burst of {count} packets type={ptype} phase={phase}")
                             st.ev(("flood", ptype, count, shape, phase, driver), f"{driver}:{oc}", True)
+    elif kind == "bulk":
+        # bulk garbage: far more marker-free bytes than any packet can hold, at once and in 10 kB pieces
+        version = a
+        for total in (65535, 65544, 70000, 200000):
+            blob = bytes(b if b not in (0x83, 0x5A) else 0x11 for b in filler(f"c09/bulk{total}", total))
+            for pieces in (1, 7):
+                def crafter(req, blob=blob, pieces=pieces):
+                    if pieces == 1:
+                        return blob
+                    step = len(blob) // pieces + 1
+                    for k in range(0, len(blob) - step, step):
+                        req.conn.deliver(blob[k:k + step], 0.01 + k * 1e-9)
+                    return blob[len(blob) - (len(blob) % step or step):]
+                for phase in (["data", "idle"] if version == 2 else V3_PHASES + ["idle", "rehandshake"]):
+                    drivers = (IDLE_DRIVERS if phase == "idle" else ["refresh-reauth"] if phase == "rehandshake" else
+                               ["send", "refresh", "send-then-send"] if phase == "data" else ["authenticate", "refresh"])
+                    for driver in drivers:
+                        case = {"proto": version, "phase": phase, "bulk": total, "pieces": pieces, "driver": driver}
+                        res = execute(version, phase, crafter, driver)
+                        oc = judge(st, case, driver, res[0], res[2], f"v{version} {total} bytes of garbage phase={phase}")
+                        st.ev(("bulk", version, total, pieces, phase, driver), f"{driver}:{oc}", True)
+    elif kind == "streak":
+        # repetition bound: the same failure 15 times in a row on one device object, then an honest exchange
+        version = a
+        for what in ("silent", "garbage", "error", "close"):
+            if what == "error" and version == 2:
+                continue
+            res = execute_streak(version, what, 15)
+            case = {"proto": version, "streak": what, "n": 15}
+            oc = exc_class(res[0])
+            prob = None
+            if oc != "ok":
+                prob = f"raised {oc}"
+            elif not res[0][1][-1]:
+                prob = "device still offline in the honest exchange after the streak"
+            elif res[2]:
+                prob = f"exception in event-loop callback: {res[2][0]}"
+            if prob:
+                st.violation(f"v{version} streak of 15 x {what}: {prob}", case, "no operation raises; honest exchange afterwards succeeds", prob, str(res[0][1])[:200])
+            st.ev(("streak", version, what), oc, True)
     elif kind == "v2idle":
         marker = V2_MARKERS[a]
         for lf, cipher, sig, trunc in product(V2_LENGTHS, V2_CIPHER, V2_SIGS, (None, 6, "n-1")):
@@ -411,6 +493,10 @@ def run_shard(shard, tier) -> Stats:
 
 def replay(case):
     st = Stats()
+    if "bulk" in case:
+        return sorted(run_shard(("bulk", case["proto"], 0), "quick").viol_counts)
+    if "streak" in case:
+        return sorted(run_shard(("streak", case["proto"], 0), "quick").viol_counts)
     if "flood" in case:
         return sorted(run_shard(("flood", case["type"] - case["type"] % 4, 0), "quick").viol_counts)
     if "raw" in case:
